@@ -276,6 +276,12 @@ def _variants():
                                                        "sorted(rec_w_reduce_pattern_pos(set([]), set([]), goodpatts[n][perm], perm, pattern_positions, check_interval), key=len)"),
                                          replace_stmt(BS, "forb.find_badpatts", "for j, r in enumerate(R): ...", "for r in R:\n    if not any(s <= r for s in newR):\n        newR.append(r)")], "silent"),
         V("cleanup-flag-reset-hoisted", [replace_stmt(BS, "clean_up", "perm_is_a_key = False", ""), insert_stmt(BS, "clean_up", "L_is_a_key = False", "perm_is_a_key = False", "after")], "fire", "C17-U2"),
+        V("auto-tables-swapped", replace_stmt(BI, "auto_bisc", "if prop(perm): ...", "if prop(perm):\n    B[i].append(perm)\nelse:\n    A[i].append(perm)"), "fire", "C17-A3"),
+        V("auto-complement-in", replace_expr(BI, "auto_bisc", "[perm for perm in Perm.of_length(i) if perm not in A[i]]", "[perm for perm in Perm.of_length(i) if perm in A[i]]"), "fire", "C17-A3"),
+        V("auto-tables-range-short", replace_expr(BI, "auto_bisc", "range(L + 1)", "range(L)"), "fire", "C17-A3"),
+        V("auto-tuple-swapped", [replace_stmt(BI, "auto_bisc", "A = prop[0]", "A = prop[1]"), replace_stmt(BI, "auto_bisc", "B = prop[1]", "B = prop[0]")], "fire", "C17-A3"),
+        V("auto-bad-branch-dropped", replace_stmt(BI, "auto_bisc", "if prop(perm): ...", "if prop(perm):\n    A[i].append(perm)"), "fire", "C17-A3"),
+        V("auto-negated-routing", replace_stmt(BI, "auto_bisc", "if prop(perm): ...", "if not prop(perm):\n    B[i].append(perm)\nelse:\n    A[i].append(perm)"), "silent"),
         # silent
         V("reformat-bisc-sub", reformat_only(BS), "silent"),
         V("bisc-swap-sides", replace_expr(BS, "perm_contains_cl_patt_many_shadings", "candidate_elt < element", "element > candidate_elt"), "silent"),
@@ -979,3 +985,126 @@ def run(ctx: Ctx) -> None:  # noqa: F811
 
 
 FLOORS["C17-M1"] = 1
+
+
+# ------------------------------------------------------------------ A3: the good/bad tables partition every level
+
+
+def rule_a3(ctx: Ctx) -> None:
+    """The sanity checks of auto_bisc are only as good as its two tables: for every length i up to the sanity bound,
+    good[i] and bad[i] must split Perm.of_length(i) by the property.  Recognised constructions: the predicate loop
+    (`if prop(p): good[i].append(p) else: bad[i].append(p)` over Perm.of_length(i)) and the complement comprehension
+    (`bad[i] = [p for p in Perm.of_length(i) if p not in good[i]]`)."""
+    mod = ctx.repo.module("permuta.bisc.bisc")
+    f = mod.functions.get("auto_bisc")
+    if f is None:
+        raise AnalysisError("auto_bisc vanished")
+    learn = [n for n in walk_no_nested(f.node) if isinstance(n, ast.Call) and call_name(n) == ("bisc",)]
+    bads = [n for n in walk_no_nested(f.node) if isinstance(n, ast.Call) and call_name(n) and call_name(n)[-1] == "patterns_suffice_for_bad" and len(n.args) >= 3]
+    if len(learn) != 1 or not bads:
+        raise AnalysisError(f"{f.where}: learning / sanity calls not recognised")
+    good, bad = unparse(learn[0].args[0]), unparse(bads[0].args[2])
+    prop = f.params[0]
+    bound_names = {unparse(n.args[1]) for n in bads}
+    if len(bound_names) != 1:
+        raise AnalysisError(f"{f.where}: sanity bound not recognised")
+    bound = bound_names.pop()
+    found = 0
+    for lp in walk_no_nested(f.node):
+        if not (isinstance(lp, ast.For) and isinstance(lp.target, ast.Name)):
+            continue
+        i = lp.target.id
+        # (P) predicate loop
+        inner = [st for st in lp.body if isinstance(st, ast.For) and unparse(st.iter).startswith("Perm.of_length(")]
+        for pl in inner:
+            if not isinstance(pl.target, ast.Name):
+                continue
+            p = pl.target.id
+            found += 1
+            if unparse(pl.iter) != f"Perm.of_length({i})":
+                ctx.violation("C17-A3", f, pl, f"the tables of length {i} are filled from `{unparse(pl.iter)}`")
+                continue
+            if not (len(pl.body) == 1 and isinstance(pl.body[0], ast.If)):
+                raise AnalysisError(f"{f.where}: body of the loop over Perm.of_length({i}) not recognised")
+            iff = pl.body[0]
+            t = unparse(iff.test)
+            pos = t == f"{prop}({p})"
+            negated = t == f"not {prop}({p})"
+            if not (pos or negated):
+                raise AnalysisError(f"{f.where}: routing test `{t}` not recognised")
+            want_then, want_else = (good, bad) if pos else (bad, good)
+
+            def appends(stmts):
+                out = []
+                for st in stmts:
+                    if isinstance(st, ast.Expr) and isinstance(st.value, ast.Call) and isinstance(st.value.func, ast.Attribute) and st.value.func.attr == "append" and isinstance(st.value.func.value, ast.Subscript):
+                        out.append((unparse(st.value.func.value.value), unparse(st.value.func.value.slice), unparse(st.value.args[0])))
+                return out
+
+            a_then, a_else = appends(iff.body), appends(iff.orelse)
+            if a_then == [(want_then, i, p)] and a_else == [(want_else, i, p)]:
+                ctx.ok("C17-A3", f.where, f"length {i}: a permutation goes to `{good}` iff the property holds, to `{bad}` otherwise", iff, f)
+            elif len(a_then) <= 1 and len(a_else) <= 1 and len(iff.body) <= 1 and len(iff.orelse) <= 1:
+                ctx.violation("C17-A3", f, iff, f"permutations of length {i} are routed as then -> {a_then}, else -> {a_else}; the property holders must go to `{good}[{i}]` and all others to `{bad}[{i}]`")
+            else:
+                raise AnalysisError(f"{f.where}: routing of the permutations of length {i} not recognised")
+            # the range of lengths: the first construction must cover 0..bound, an extension (old bound, new bound]
+            it = lp.iter
+            if isinstance(it, ast.Call) and call_name(it) == ("range",):
+                if len(it.args) == 1:
+                    d = lin_diff(it.args[0], {bound: 1, "": 1})
+                    if d is not None and d < 0:
+                        ctx.violation("C17-A3", f, lp, f"the tables are filled for `{unparse(it)}` only; every length 0..{bound} is needed by the sanity checks")
+                    elif d is None:
+                        raise AnalysisError(f"{f.where}: range `{unparse(it)}` not comparable with the sanity bound")
+                elif len(it.args) == 2:
+                    d1 = lin_diff(it.args[1], {bound: 1, "": 1})
+                    olds = [st for st in walk_no_nested(f.node) if isinstance(st, ast.Assign) and unparse(st.value) == bound and isinstance(st.targets[0], ast.Name)]
+                    old = olds[0].targets[0].id if olds else None
+                    d0 = lin_diff(it.args[0], {old: 1, "": 1}) if old else None
+                    if d1 is not None and d1 < 0 or (d0 is not None and d0 > 0):
+                        ctx.violation("C17-A3", f, lp, f"the tables are extended over `{unparse(it)}`; every new length {old} + 1 .. {bound} is needed")
+                    elif d1 is None or d0 is None:
+                        raise AnalysisError(f"{f.where}: range `{unparse(it)}` not comparable with the old and new sanity bound")
+        # (C) complement comprehension
+        for st in lp.body:
+            if isinstance(st, ast.Assign) and isinstance(st.targets[0], ast.Subscript) and unparse(st.targets[0].value) == bad and isinstance(st.value, ast.ListComp):
+                found += 1
+                lc = st.value
+                g = lc.generators[0]
+                p = unparse(g.target)
+                ok_shape = len(lc.generators) == 1 and unparse(st.targets[0].slice) == i and unparse(lc.elt) == p
+                if not ok_shape:
+                    raise AnalysisError(f"{f.where}: complement `{unparse(st)[:70]}` not recognised")
+                if unparse(g.iter) != f"Perm.of_length({i})":
+                    ctx.violation("C17-A3", f, st, f"`{bad}[{i}]` is taken from `{unparse(g.iter)}`, not from Perm.of_length({i})")
+                elif [unparse(c) for c in g.ifs] == [f"{p} not in {good}[{i}]"]:
+                    ctx.ok("C17-A3", f.where, f"`{bad}[{i}]` = the permutations of length {i} that are not in `{good}[{i}]`", st, f)
+                elif [unparse(c) for c in g.ifs] in ([f"{p} in {good}[{i}]"], []):
+                    ctx.violation("C17-A3", f, st, f"`{bad}[{i}]` is not the complement of `{good}[{i}]` in Perm.of_length({i}) (filter: {[unparse(c) for c in g.ifs]})")
+                else:
+                    raise AnalysisError(f"{f.where}: complement filter `{[unparse(c) for c in g.ifs]}` not recognised")
+    # the tuple input: tables taken as given, in this order
+    for st in walk_no_nested(f.node):
+        if isinstance(st, ast.Assign) and isinstance(st.targets[0], ast.Name) and isinstance(st.value, ast.Subscript) and unparse(st.value.value) == prop and isinstance(st.value.slice, ast.Constant):
+            found += 1
+            want = {good: 0, bad: 1}.get(st.targets[0].id)
+            if want is None:
+                continue
+            if st.value.slice.value == want:
+                ctx.ok("C17-A3", f.where, f"tuple input: `{st.targets[0].id}` = component {want}", st, f)
+            else:
+                ctx.violation("C17-A3", f, st, f"tuple input: `{st.targets[0].id}` is taken from component {st.value.slice.value}; (good, bad) is the documented order")
+    if found < 5:
+        raise AnalysisError(f"only {found} table constructions recognised in auto_bisc (5 confirmed by hand)")
+
+
+_OLD_RUN5 = run
+
+
+def run(ctx: Ctx) -> None:  # noqa: F811
+    _OLD_RUN5(ctx)
+    ctx.run(rule_a3, ctx)
+
+
+FLOORS["C17-A3"] = 5
